@@ -28,3 +28,67 @@ func vs_globalinv_numberWideness() bool {
 		return vs_has(numberWideness, t) == vs_numeric(t) && (vs_numeric(t) ==> numberWideness[t] == vs_wideness(t))
 	})
 }
+
+// vs_mustBeBreaking: change codes that the C13 statement requires to be classified Breaking,
+// per direction ("the cases the documentation lists as breaking").
+func vs_mustBeBreaking(c SpecChangeCode, d DataDirection) bool {
+	if c == DeletedEndpoint || c == DeletedConsumesFormat {
+		return true
+	}
+	if d == Request {
+		return c == AddedRequiredParam || c == ChangedOptionalToRequired || c == NarrowedType || c == ChangedType ||
+			c == DeletedEnumValue || c == AddedConstraint || c == AddedRequiredProperty || c == ChangedCollectionFormat
+	}
+	return c == DeletedResponse || c == DeletedProperty || c == DeletedResponseHeader || c == AddedEnumValue
+}
+
+// vs_context: the direction addDiff derives from a location.
+func vs_context(loc DifferenceLocation) DataDirection {
+	if loc.Response > 0 {
+		return Response
+	}
+	return Request
+}
+
+// Global invariant: the compatibility policy classifies every must-be-breaking code as Breaking
+// (a code missing from all tables reads as the zero value, which is Breaking).
+func vs_globalinv_compatibility() bool {
+	return compatibility.ForChange != nil && compatibility.ForRequest != nil && compatibility.ForResponse != nil &&
+		vs_all(func(c SpecChangeCode) bool {
+			return (vs_mustBeBreaking(c, Request) ==> vs_lookupCompat(c, Request) == Breaking) &&
+				(vs_mustBeBreaking(c, Response) ==> vs_lookupCompat(c, Response) == Breaking)
+		})
+}
+
+// vs_lookupCompat restates getCompatibilityForChange over the tables.
+func vs_lookupCompat(c SpecChangeCode, d DataDirection) Compatibility {
+	if vs_has(compatibility.ForChange, c) {
+		return compatibility.ForChange[c]
+	}
+	if d == Request {
+		return compatibility.ForRequest[c]
+	}
+	return compatibility.ForResponse[c]
+}
+
+// Global invariants for C15: the code <-> string tables are total on the declared codes,
+// injective, and the tables built by init are their inverses.
+func vs_globalinv_codeTable() bool {
+	return toStringSpecChangeCode != nil && toIDSpecChangeCode != nil &&
+		vs_all(func(c SpecChangeCode) bool {
+			return (NoChangeDetected <= c && c <= ChangedExtensionValue) == vs_has(toStringSpecChangeCode, c)
+		}) &&
+		vs_all(func(c SpecChangeCode) bool {
+			return vs_has(toStringSpecChangeCode, c) ==> vs_has(toIDSpecChangeCode, toStringSpecChangeCode[c]) && toIDSpecChangeCode[toStringSpecChangeCode[c]] == c
+		})
+}
+
+func vs_globalinv_compatTable() bool {
+	return toStringCompatibility != nil && toIDCompatibility != nil &&
+		vs_all(func(c Compatibility) bool {
+			return (Breaking <= c && c <= Warning) == vs_has(toStringCompatibility, c)
+		}) &&
+		vs_all(func(c Compatibility) bool {
+			return vs_has(toStringCompatibility, c) ==> vs_has(toIDCompatibility, toStringCompatibility[c]) && toIDCompatibility[toStringCompatibility[c]] == c
+		})
+}
